@@ -631,7 +631,10 @@ pub fn div<
         // Optimize division as multiplication-by-reciprocal.
         //
         // This loses some precision, so we might want to revisit this in future.
-        (false, Some(scalar)) => mul(pool, a, Tensor::from_scalar(T::one() / *scalar).view()),
+        //
+        // The reciprocal keeps the shape of `b`, as the rank of the output
+        // is the rank of `b` if that is larger than the rank of `a`.
+        (false, Some(_)) => mul(pool, a, b.map(|y| T::one() / *y).view()),
         _ => binary_op(pool, a, b, &|x, y| x / y),
     }
 }
